@@ -729,13 +729,20 @@ func TestPriority(t *testing.T) {
 					noInt: typ == "bp" && rapid.IntRange(0, 3).Draw(t, typ+"noint") == 0})
 			}
 		}
-		add("bp", rapid.IntRange(2, 5).Draw(t, "nbp"), []string{"@", "#", "#", "-"}, map[string]int{"#": 600, "-": 1000})
+		// crowded: one case in six registers many components for the same trigger (dispatch lists of 8, 16 ... entries:
+		// whatever is kept per list position - bit masks, small arrays - has to cope)
+		crowd := 0
+		if rapid.IntRange(0, 5).Draw(t, "crowded") == 0 {
+			crowd = rapid.IntRange(4, 14).Draw(t, "crowd")
+			kit.R.Class("crowded-dispatch-lists")
+		}
+		add("bp", rapid.IntRange(2, 5).Draw(t, "nbp")+crowd/2, []string{"@", "#", "#", "-"}, map[string]int{"#": 600, "-": 1000})
 		// block parsers on '-' (shared with setext 100 / thematic break 200 / list 300), some of which cannot interrupt a paragraph
-		for i, n := 0, rapid.IntRange(0, 3).Draw(t, "ndash"); i < n; i++ {
+		for i, n := 0, rapid.IntRange(0, 3).Draw(t, "ndash")+crowd; i < n; i++ {
 			cs = append(cs, comp{typ: "bp", name: "d" + strconv.Itoa(i), prio: prio(150), trigger: "dash",
 				accept: rapid.IntRange(0, 2).Draw(t, "dacc") == 0, noInt: rapid.Bool().Draw(t, "noint"), channel: rapid.IntRange(0, 3).Draw(t, "dch")})
 		}
-		add("ip", rapid.IntRange(2, 5).Draw(t, "nip"), []string{"@", "*", "*"}, map[string]int{"*": 500})
+		add("ip", rapid.IntRange(2, 5).Draw(t, "nip")+crowd/2, []string{"@", "*", "*"}, map[string]int{"*": 500})
 		add("pt", rapid.IntRange(0, 4).Draw(t, "npt"), []string{"-"}, map[string]int{"-": 100})
 		add("at", rapid.IntRange(0, 4).Draw(t, "nat"), []string{"-"}, nil)
 		add("nr", rapid.IntRange(1, 4).Draw(t, "nnr"), []string{"probe", "em", "em"}, map[string]int{"em": 1000})
